@@ -299,7 +299,7 @@ def all_trees(leaf_list):
 
 def rand_cfg(rng, n_leaves, tight=None):
     minw = rng.choice([1, 2, 3, 4, 4, 8])
-    minp = rng.choice([1, 1, 1, 2, 3, 7])
+    minp = rng.choice([1, 1, 1, 0, 0, 2, 3, 7])
     wpc = rng.choice([1, 1, 2, 3])
     spill = rng.choice([0, 1, minw - 1, minw, minw + 1, 2 * minw, 3 * minw, rng.randint(0, 4 * minw)])
     spill = max(spill, 0)
